@@ -13,7 +13,7 @@ import ast
 from typing import Dict, List, Optional, Set, Tuple
 
 from ..model import Repo, ClassInfo, FuncInfo, AnalysisError, norm, parent, ancestors, enclosing_stmt, const_str
-from ..exprs import path_conditions
+from ..exprs import path_conditions, sym_norm
 from ..report import Ctx, RuleResult
 from ..exprs import linear, lin_str
 
@@ -561,11 +561,20 @@ def run_scan_buffer(ctx: Ctx) -> RuleResult:
     for c, b_ in carry:
         # inside `for <ig> in self.ignore: m = match(<ig>, ...); if m:` and keyed by the end of the ignored match
         loop = next((a for a in ancestors(c) if isinstance(a, ast.For)), None)
-        cond = next((a for a in ancestors(c) if isinstance(a, ast.If)), None)
-        if loop is not None and norm(loop.iter).endswith('.ignore') and cond is not None and isinstance(cond.test, ast.Name) \
-                and b_['$$k'] == '%s.end()' % cond.test.id:
+        # under "the ignored terminal matched" (nested `if m:` or a guard `if not m: continue`), keyed by the end of that match
+        mnames = [norm(t) for t, pol in path_conditions(enclosing_stmt(c)) if pol and isinstance(t, ast.Name)] + \
+                 [norm(t.operand) for t, pol in path_conditions(enclosing_stmt(c)) if not pol and isinstance(t, ast.UnaryOp) and isinstance(t.op, ast.Not) and isinstance(t.operand, ast.Name)]
+        if loop is not None and norm(loop.iter).endswith('.ignore') and any(b_['$$k'] == '%s.end()' % m_ for m_ in mnames):
             ok = True
     n += 1
+    # ... for EVERY ignored terminal that matches here (two of them may match with different lengths: whitespace / whitespace + comment)
+    ig_loops = [l for l in x.body_nodes() if isinstance(l, ast.For) and norm(l.iter).endswith('.ignore')]
+    early = [b_ for l in ig_loops for b_ in ast.walk(l) if isinstance(b_, (ast.Break, ast.Return))]
+    ok_all = len(ig_loops) == 1 and not early
+    res.ob('%s %s' % (x.loc(), x.qual), 'every ignored terminal is tried at every position (no early exit from the loop over self.ignore)', ok_all)
+    if not ok_all:
+        res.finding(x, early[0] if early else x.node, 'the loop over the ignored terminals ends at the first one that matches: a longer ignored match of '
+                    'another terminal (a comment that starts with blanks) is never carried over, and the input after it is rejected', construct='ignore-loop-exit')
     res.ob('%s %s' % (x.loc(), x.qual), 'every item of the scan buffer is carried over an ignored match (to the end of that match)', ok)
     if not ok:
         res.finding(x, x.node, 'the dynamic scanner does not carry the whole scan buffer over ignored text', construct='carry-over')
@@ -603,7 +612,7 @@ def run_scan_buffer(ctx: Ctx) -> RuleResult:
             if comp is not None:
                 tests_ = set()
                 for i_ in comp.generators[0].ifs:
-                    tests_ |= {norm(t) for t in (i_.values if isinstance(i_, ast.BoolOp) and isinstance(i_.op, ast.And) else [i_])}
+                    tests_ |= {sym_norm(t) for t in (i_.values if isinstance(i_, ast.BoolOp) and isinstance(i_.op, ast.And) else [i_])}
                 fills.append((c, norm(comp.generators[0].target), tests_))
                 continue
             loop_ = next((l for l in ancestors(c) if isinstance(l, ast.For) and norm(l.iter).startswith('columns[')), None)
@@ -611,13 +620,13 @@ def run_scan_buffer(ctx: Ctx) -> RuleResult:
                 tests_ = set()
                 for t, pol in path_conditions(enclosing_stmt(c)):
                     if pol and any(isinstance(n_, ast.Name) and n_.id == norm(loop_.target) for n_ in ast.walk(t)):
-                        tests_ |= {norm(v) for v in (t.values if isinstance(t, ast.BoolOp) and isinstance(t.op, ast.And) else [t])}
+                        tests_ |= {sym_norm(v) for v in (t.values if isinstance(t, ast.BoolOp) and isinstance(t.op, ast.And) else [t])}
                 fills.append((c, norm(loop_.target), tests_))
         ok2 = len(fills) == 1
         why = 'completed start items are not carried at all (trailing ignored text would be rejected)'
         if ok2:
             fill_call, itv, tests = fills[0]
-            need = {'%s.is_complete' % itv, '%s.s == start_symbol' % itv, '%s.start == 0' % itv}
+            need = {sym_norm(ast.parse(x_, mode='eval').body) for x_ in ('%s.is_complete' % itv, '%s.s == start_symbol' % itv, '%s.start == 0' % itv)}
             ok2 = need <= tests
             why = 'the carried items are filtered by %s, not by %s' % (sorted(tests), sorted(need))
             fills = [fill_call]
